@@ -527,6 +527,10 @@ func (u *Unit) makeIface(st *State, pc *Term, x *SV, t types.Type) *Term {
 	}
 	f := c.Func("mkiface", []*Sort{SInt, SRef}, SRef)
 	r := c.App(f, u.typeID(t), payload)
+	if u.ifaceStatic == nil {
+		u.ifaceStatic = map[int]types.Type{}
+	}
+	u.ifaceStatic[r.id] = t
 	ft, fv := u.ifaceFns()
 	u.assume(pc, c.And(c.Neq(r, c.Nil()), c.Eq(c.App(ft, r), u.typeID(t)), c.Eq(c.App(fv, r), payload)))
 	return r
